@@ -149,6 +149,15 @@ func mergeToWriter(segments []*Segment, drops []*roaring.Bitmap,
 			return nil, nil, err
 		}
 		storedIndexOffset = uint64(cr.Count())
+
+		// every input document is dropped
+		for _, seg := range segments {
+			segNewDocNums := make([]uint64, seg.footer.numDocs)
+			for i := range segNewDocNums {
+				segNewDocNums[i] = docDropped
+			}
+			newDocNums = append(newDocNums, segNewDocNums)
+		}
 	}
 
 	var fieldsIndexOffset uint64
